@@ -159,7 +159,9 @@ def theta_from_unit(spec, case, X, ys, theta_u=None):
                 out.append(math.log(span[j]) + (-2.5 + 4.0 * u.pop(0)))
         elif k == "RQ":
             out.append(math.log(ys) + 4 * (u.pop(0) - 0.5))
-            out.append(-2 + 6 * u.pop(0))
+            # log-alpha over the default search range, and (one draw in seven) far beyond it towards the squared-exponential limit
+            ua = u.pop(0)
+            out.append(-2 + 7 * ua if ua <= 6 / 7 else 4 + (ua - 6 / 7) * 7 * 26)
             for j in range(d):
                 out.append(math.log(span[j]) + (-2.5 + 4.0 * u.pop(0)))
         elif k == "White":
